@@ -433,7 +433,9 @@ func (c *Client) discover(ctx context.Context, cs *ClientSession) (*InitializeRe
 	// Since supportedProtocolVersions is defined in descending order (newest to oldest),
 	// the first match we find is the highest supported version.
 	var negotiated string
-	if slices.Contains(res.SupportedVersions, protocolVersion) {
+	if slices.Contains(res.SupportedVersions, protocolVersion) && slices.Contains(supportedProtocolVersions, protocolVersion) {
+		// (The requested version may be a string this SDK does not know, which
+		// a server may happen to list all the same.)
 		negotiated = protocolVersion
 	} else {
 		negotiated = negotiateMutuallySupportedVersion(res.SupportedVersions)
